@@ -22,4 +22,7 @@ CONTROLS = [
     dict(name="BENIGN: ground_truth collects the per-file effects with a for loop instead of map", benign=True,
          edits=[(F, "        effect.update(\n            map(\n                lambda filename: _conform_filename(\n                    filename=filename,", "        for filename in filenames:\n          effect.update(\n            (\n                _conform_filename(\n                    filename=filename,"),
                 (F, "                    type_wanted=type_wanted,\n                ),\n                filenames,\n            )\n        )\n", "                    type_wanted=type_wanted,\n                ),\n            )\n          )\n")]),
+    dict(name="cmp_ast no longer compares the lengths of two sequences (a strict prefix compares equal)",
+         edits=[("cdd/shared/ast_utils.py", "        if len(node0) != len(node1):\n            return False\n\n        for left, right in zip(node0, node1):", "        if len(node0) != len(node1):\n            pass\n\n        for left, right in zip(node0, node1):")],
+         expect=r"cmp_ast#sequences-of-different-length-differ/block.ensures\[0\]"),
 ]
